@@ -68,8 +68,24 @@ package grpcgcp
 //@ inv gcpBalancer.mu Sig [C05] := forall r *subConnRef :: {isa(r)} isa(r) ==> r.stateSignal != nil && !closed(r.stateSignal) && r.stateSignal <= $alloc
 //@ inv gcpBalancer.mu SigInj [C05] := forall r1 *subConnRef, r2 *subConnRef :: {isa(r1), isa(r2)} isa(r1) && isa(r2) && r1 != r2 ==> r1.stateSignal != r2.stateSignal
 //@ inv gcpBalancer.mu I14 [C05 C03] := (forall sc in this.scRefs :: $created[sc]) && (forall sc in this.refreshingScRefs :: $created[sc]) && (forall r *subConnRef :: {isa(r)} isa(r) ==> $created[r.subConn])
+//@ inv gcpBalancer.mu I8c [C01 C07] := forall r *subConnRef :: {isa(r)} isa(r) ==> !(r.subConn in this.refreshingScRefs)
+//@ inv gcpBalancer.mu I1g [C01 C07] := forall r *subConnRef :: {isa(r)} isa(r) && r.subConn in this.scRefs ==> this.scRefs[r.subConn] == r
 //@ inv gcpBalancer.mu I8 [C05 C07] := forall sc balancer.SubConn :: {sc in this.refreshingScRefs} sc in this.refreshingScRefs ==> sc != nil && this.refreshingScRefs[sc] != nil && isa(this.refreshingScRefs[sc]) && !(sc in this.scRefs) && this.refreshingScRefs[sc].subConn != sc
 //@ inv gcpBalancer.mu I6 [C04] := this.csEvltr.numReady == count(this.scStates, connectivity.Ready) && this.csEvltr.numConnecting == count(this.scStates, connectivity.Connecting) && this.csEvltr.numTransientFailure == count(this.scStates, connectivity.TransientFailure)
+
+//@ inv gcpBalancer.mu I4 [C01] := forall k, v in this.affinityMap :: $created[v]
+//@ inv gcpBalancer.mu I5 [C08] := forall k, v in this.fallbackMap :: v in this.scRefs && this.scStates[v] == connectivity.Ready
+//@ spec home(gb *gcpBalancer, K string) := ite(K in gb.affinityMap && gb.affinityMap[K] in gb.scRefs, gb.scRefs[gb.affinityMap[K]], nil)
+//@ spec fallbackOn(gb *gcpBalancer) := gb.cfg.GetChannelPool().GetFallbackToReady()
+//@ spec homeReady(gb *gcpBalancer, K string) := K in gb.affinityMap && gb.scStates[gb.affinityMap[K]] == connectivity.Ready
+//@ pred affUnchanged(gb *gcpBalancer) := forall k string :: {k in gb.affinityMap} (k in gb.affinityMap) == old(k in gb.affinityMap) && gb.affinityMap[k] == old(gb.affinityMap[k])
+//@ pred fbUnchanged(gb *gcpBalancer) := forall k string :: {k in gb.fallbackMap} (k in gb.fallbackMap) == old(k in gb.fallbackMap) && gb.fallbackMap[k] == old(gb.fallbackMap[k])
+//@ pred homeFrame(gb *gcpBalancer) := forall K string :: {K in gb.affinityMap} old(home(gb, K)) != nil ==> home(gb, K) == old(home(gb, K))
+//@ spec aggOf(r int, c int) := ite(r > 0, connectivity.Ready, ite(c > 0, connectivity.Connecting, connectivity.TransientFailure))
+//@ inv gcpBalancer.mu I7 [C04] := $pubCount > 0 ==> this.state == aggOf(this.csEvltr.numReady, this.csEvltr.numConnecting)
+//@ inv gcpBalancer.mu I12 [C04] := $pubCount > 0 ==> $lastState == this.state && $lastPicker == this.picker
+//@ inv gcpBalancer.mu I10p [C04] := $pubCount > 0 ==> ((this.state == connectivity.TransientFailure) == (this.picker is *errPicker && this.picker.(*errPicker).err == balancer.ErrTransientFailure)) && (this.state != connectivity.TransientFailure ==> this.picker is *gcpPicker)
+//@ inv gcpBalancer.mu I14p [C04] := $pubCount >= 0
 
 // ---------------------------------------------------------------- balancer
 
@@ -86,22 +102,53 @@ package grpcgcp
 //@   loop 1 invariant $i == 1 ==> cse.numReady == old(cse.numReady) + b2i(newState == connectivity.Ready) - b2i(oldState == connectivity.Ready) && cse.numConnecting == old(cse.numConnecting) + b2i(newState == connectivity.Connecting) - b2i(oldState == connectivity.Connecting) && cse.numTransientFailure == old(cse.numTransientFailure) + b2i(newState == connectivity.TransientFailure) - b2i(oldState == connectivity.TransientFailure)
 //@
 //@ func (gb *gcpBalancer) bindSubConn
+//@   ensures [C01.bind-keeps] old(bindKey in gb.affinityMap) ==> gb.affinityMap[bindKey] == old(gb.affinityMap[bindKey])
+//@   ensures [C01.bind-new] !old(bindKey in gb.affinityMap) && old(sc in gb.scRefs) ==> bindKey in gb.affinityMap && gb.affinityMap[bindKey] == sc
+//@   ensures [C01.bind-unknown] !old(sc in gb.scRefs) ==> affUnchanged(gb)
+//@   ensures [C01.bind-frame] forall k string :: {k in gb.affinityMap} k != bindKey ==> (k in gb.affinityMap) == old(k in gb.affinityMap) && gb.affinityMap[k] == old(gb.affinityMap[k])
+//@   ensures [C08.home-untouched] fbUnchanged(gb)
 //@ func (gb *gcpBalancer) unbindSubConn
+//@   ensures [C01.unbind-removes] !(boundKey in gb.affinityMap)
+//@   ensures [C01.unbind-frame] forall k string :: {k in gb.affinityMap} k != boundKey ==> (k in gb.affinityMap) == old(k in gb.affinityMap) && gb.affinityMap[k] == old(gb.affinityMap[k])
+//@ spec oldStateOf(gb *gcpBalancer, sc balancer.SubConn) := ite(old(sc in gb.scStates), old(gb.scStates[sc]), old(gb.scStates[gb.refreshingScRefs[sc].subConn]))
 //@ func (gb *gcpBalancer) UpdateSubConnState
 //@   requires sc != nil
+//@   ensures [C04.publish-on-change] (old(sc in gb.scStates) || (old(sc in gb.refreshingScRefs) && scs.ConnectivityState == connectivity.Ready)) && (((scs.ConnectivityState == connectivity.Ready) != (oldStateOf(gb, sc) == connectivity.Ready)) || ((gb.state == connectivity.TransientFailure) != (old(gb.state) == connectivity.TransientFailure))) ==> $pubCount > old($pubCount)
+//@   ensures [C04.unknown-ignored] !old(sc in gb.scStates) && !old(sc in gb.refreshingScRefs) ==> $pubCount == old($pubCount) && gb.state == old(gb.state) && gb.picker == old(gb.picker) && gb.csEvltr.numReady == old(gb.csEvltr.numReady)
+//@   ensures [C01.frame] scs.ConnectivityState != connectivity.Shutdown ==> homeFrame(gb)
+//@   ensures [C01.frame-shutdown] scs.ConnectivityState == connectivity.Shutdown ==> forall K string :: {K in gb.affinityMap} old(home(gb, K)) != old(gb.scRefs[sc]) ==> home(gb, K) == old(home(gb, K))
+//@   ensures [C08.home-untouched] !old(sc in gb.refreshingScRefs) ==> affUnchanged(gb)
+//@   loop 1 invariant forall k string :: {k in gb.affinityMap} (k in gb.affinityMap) == old(k in gb.affinityMap) && gb.affinityMap[k] == ite($visited(k) && old(gb.affinityMap[k]) == oldSc, sc, old(gb.affinityMap[k]))
+//@   loop 2 invariant forall k string :: {k in gb.fallbackMap} (k in gb.fallbackMap) == old(k in gb.fallbackMap) && gb.fallbackMap[k] == ite($visited(k) && old(gb.fallbackMap[k]) == oldSc, sc, old(gb.fallbackMap[k]))
+//@   loop 3 invariant forall k, v in gb.fallbackMap :: ($visited(k) ==> v != sc) && (v != sc ==> v in gb.scRefs && gb.scStates[v] == connectivity.Ready)
+//@   loop 4 invariant forall k, v in gb.fallbackMap :: v in gb.scRefs && gb.scStates[v] == connectivity.Ready
+//@   ensures [C04.replacement-waits] old(sc in gb.refreshingScRefs) && scs.ConnectivityState != connectivity.Ready ==> $pubCount == old($pubCount) && gb.state == old(gb.state) && gb.picker == old(gb.picker)
 //@ func (gb *gcpBalancer) UpdateClientConnState
+//@   ensures [C01.frame] homeFrame(gb) && affUnchanged(gb) && fbUnchanged(gb)
 //@ func (gb *gcpBalancer) ResolverError
 //@ func (gb *gcpBalancer) Close
 //@ func (gb *gcpBalancer) getConnectionPoolSize
 //@ func (gb *gcpBalancer) newSubConn
 //@   requires gb.cfg != nil
+//@   ensures [C01.frame] homeFrame(gb) && affUnchanged(gb) && fbUnchanged(gb)
 //@ func (gb *gcpBalancer) refresh
 //@   requires ref != nil && gb.cfg != nil && len(gb.scRefList) > 0
+//@   ensures [C01.frame] homeFrame(gb) && affUnchanged(gb) && fbUnchanged(gb)
 //@   ensures [C07.refresh-once] old(ref.refreshing) ==> $newCalls == old($newCalls) && ref.refreshing && (forall sc balancer.SubConn :: (sc in gb.refreshingScRefs) == old(sc in gb.refreshingScRefs))
 //@   ensures [C07.refresh-create] !old(ref.refreshing) ==> $newCalls == old($newCalls) + 1
 //@   ensures [C07.refresh-ok] !old(ref.refreshing) && $newFail == old($newFail) ==> ref.refreshing && len(gb.refreshingScRefs) == old(len(gb.refreshingScRefs)) + 1 && (forall sc balancer.SubConn :: sc in gb.refreshingScRefs && !old(sc in gb.refreshingScRefs) ==> gb.refreshingScRefs[sc] == ref && !old($created[sc]) && $addrs[sc] == gb.addrs && $connectRequested[sc])
 //@   ensures [C07.refresh-fail] $newFail != old($newFail) ==> !ref.refreshing && (forall sc balancer.SubConn :: (sc in gb.refreshingScRefs) == old(sc in gb.refreshingScRefs))
 //@ func (gb *gcpBalancer) getReadySubConnRef
+//@   ensures [C01.lookup-unbound] !old(boundKey in gb.affinityMap) ==> $ret0 == nil && !$ret1 && fbUnchanged(gb)
+//@   ensures [C01.lookup-ready] old(homeReady(gb, boundKey)) ==> $ret1 && $ret0 == old(gb.scRefs[gb.affinityMap[boundKey]]) && $ret0 != nil && fbUnchanged(gb)
+//@   ensures [C01.lookup-wait] old(boundKey in gb.affinityMap) && !old(homeReady(gb, boundKey)) && !fallbackOn(gb) ==> $ret1 && $ret0 == nil && fbUnchanged(gb)
+//@   ensures [C08.sticky] old(boundKey in gb.affinityMap) && !old(homeReady(gb, boundKey)) && fallbackOn(gb) && old(boundKey in gb.fallbackMap) ==> $ret1 && $ret0 == old(gb.scRefs[gb.fallbackMap[boundKey]]) && $ret0 != nil && fbUnchanged(gb)
+//@   ensures [C08.standin] old(boundKey in gb.affinityMap) && !old(homeReady(gb, boundKey)) && fallbackOn(gb) && !old(boundKey in gb.fallbackMap) && (exists sc, st in gb.scStates :: st == connectivity.Ready) ==> $ret1 && $ret0 != nil && $ret0.subConn in gb.scRefs && gb.scRefs[$ret0.subConn] == $ret0 && gb.scStates[$ret0.subConn] == connectivity.Ready && boundKey in gb.fallbackMap && gb.fallbackMap[boundKey] == $ret0.subConn
+//@   ensures [C08.standin-frame] forall k string :: {k in gb.fallbackMap} k != boundKey ==> (k in gb.fallbackMap) == old(k in gb.fallbackMap) && gb.fallbackMap[k] == old(gb.fallbackMap[k])
+//@   ensures [C08.home-untouched] affUnchanged(gb)
+//@   ensures [C01.frame] homeFrame(gb)
+//@   loop 1 invariant fbRef != nil ==> fbRef.subConn in gb.scRefs && gb.scRefs[fbRef.subConn] == fbRef && gb.scStates[fbRef.subConn] == connectivity.Ready
+//@   loop 1 invariant forall fsc, fst in gb.scStates :: $visited(fsc) && fst == connectivity.Ready ==> fbRef != nil
 //@ func (gb *gcpBalancer) getSubConnRoundRobin
 //@   requires ctx != nil && gb.cfg != nil
 //@   requires len(gb.scRefList) > 0
@@ -111,7 +158,7 @@ package grpcgcp
 //@   inline
 //@ func (gb *gcpBalancer) enforceMinSize
 //@   inline
-//@   loop 1 invariant lockinv(gb.mu) && gb.cfg != nil
+//@   loop 1 invariant lockinv(gb.mu) && gb.cfg != nil && len(gb.scRefList) >= old(len(gb.scRefList))
 //@   loop 1 decreases gb.cfg.GetChannelPool().GetMinSize() - len(gb.scRefs)
 //@ func (gb *gcpBalancer) initializeConfig
 //@   inline
@@ -143,14 +190,19 @@ package grpcgcp
 //@ func context.Context.Value(key) (v)
 //@   ensures v is *gcpContext ==> v.(*gcpContext) != nil
 //@
+//@ func (p *errPicker) Pick
+//@   ensures [C04.errpicker-fails] $ret1 == p.err
 //@ func (p *gcpPicker) Pick
 //@   requires info.Ctx != nil
+//@   ensures [C04.gcppicker-not-tf] $ret1 != balancer.ErrTransientFailure
 //@ func (p *gcpPicker) Pick$1
 //@   captures scRef != nil && p != nil && ctx != nil && len(p.scRefs) > 0 && (hasGCPCtx ==> gcpCtx != nil)
 //@ func (p *gcpPicker) getLeastBusySubConnRef
 //@   requires len(p.scRefs) > 0
+//@   ensures [C04.gcppicker-not-tf] $ret1 == nil || $ret1 == balancer.ErrNoSubConnAvailable
 //@ func (p *gcpPicker) getAndIncrementSubConnRef
 //@   requires len(p.scRefs) > 0 && ctx != nil
+//@   ensures [C04.gcppicker-not-tf] $ret1 == nil || $ret1 == balancer.ErrNoSubConnAvailable
 //@ func (p *gcpPicker) getSubConnRef
 //@   inline
 //@ func (p *gcpPicker) detectUnresponsive
